@@ -1751,3 +1751,199 @@ def del1(units, R):
          'all %d combinations of the two ownership bits and the three payload pointers' % n_cases if not bad else
          '%s: %s (%d of %d combinations wrong)' % (desc(bad[0][0]), '; '.join(bad[0][1]), len(bad), n_cases), key='delete-table')
     R.floor('DEL1', 'ownership combinations followed through cJSON_Delete', n_cases, 32)
+
+
+# ---- DBL1: no block is handed to a release function twice ------------------------------------------------------------------
+
+def _path_vars(e):
+    return {x['d'] for x in walk(e) if x.get('k') == 'ref' and x.get('dk') in ('local', 'param', 'var', 'global', None) and 'd' in x}
+
+
+def _always_releases_param(u, fn):
+    """indices of the parameters that fn hands to a release function on every path to its end"""
+    out = set()
+    if not fn.params:
+        return out
+    cfg = None
+    for (c, e, _deep) in _direct_release_calls(u, fn):
+        if e.get('k') == 'ref' and e.get('dk') == 'param':
+            pi = [i for i, p in enumerate(fn.params) if p['d'] == e['d']]
+            if not pi or any(strip_casts(a['l']).get('d') == e['d'] for a in assignments(fn) if strip_casts(a['l']).get('k') == 'ref'):
+                continue
+            cfg = cfg or fn.cfg()
+            rn = node_containing(cfg, c)
+            if cfg.exit.id not in cfg.reachable(stop={rn.id}):
+                out.add(pi[0])
+    return out
+
+
+def dbl1(units, R, unit_names=('cJSON.c', 'cJSON_Utils.c')):
+    """Between two releases of the same access path on one feasible path of a function, the path (or a variable it is built from)
+    is assigned.  Releases: the release entry points, the deallocate hook, static helpers that release a field of their argument
+    or their argument itself on every path, and a successful reallocate (its first argument is gone once the result is known to
+    be non-NULL; unknown counts as gone).  Paths are followed with the truth of every condition they passed, so
+    `if (a) free(x); ... if (!a) free(x);` is not a report."""
+    n = 0
+    nfun = 0
+    for un in unit_names:
+        u = units[un]
+        unconditional = {}
+        for g in u.function_list:
+            if g.static:
+                ps = _always_releases_param(u, g)
+                if ps:
+                    unconditional[g.name] = ps
+        for fn in u.function_list:
+            rels = []       # (call, target string, expression, kind)
+            for (c, e, _deep) in _release_calls(u, fn):
+                rels.append((c, e, 'release'))
+            for c in fn.calls():
+                cn = callee_name(c)
+                if cn in unconditional and cn != fn.name:
+                    for pi in unconditional[cn]:
+                        if pi < len(c['args']):
+                            rels.append((c, strip_casts(c['args'][pi]), 'release'))
+                if ((cn is None and indirect_field(c) == 'reallocate') or cn == 'realloc') and c['args']:
+                    rels.append((c, strip_casts(c['args'][0]), 'realloc'))
+            rels = [(c, e, kind) for (c, e, kind) in rels
+                    if e.get('k') in ('ref', 'mem', 'idx') or (e.get('k') == 'un' and e['op'] == '*')]
+            if not rels:
+                continue
+            nfun += 1
+            cfg = fn.cfg()
+            by_target = {}
+            for (c, e, kind) in rels:
+                by_target.setdefault((expr_str(e), tuple(sorted(_path_vars(e)))), []).append((c, e, kind))
+            for (T, _vs), group in by_target.items():
+                n += len(group)
+                e0 = group[0][1]
+                vars_ = _path_vars(e0)
+                prefixes = set()
+                x = e0
+                while True:
+                    prefixes.add(expr_str(x))
+                    if x.get('k') in ('mem', 'idx'):
+                        x = strip_casts(x['b'])
+                    elif x.get('k') == 'un' and x['op'] == '*':
+                        x = strip_casts(x['e'])
+                    else:
+                        break
+                relnodes = {}
+                for (c, e, kind) in group:
+                    relnodes.setdefault(node_containing(cfg, c).id, []).append((c, kind))
+
+                def kills(node):
+                    for ev in node_effects(node):
+                        if ev.kind in ('store', 'incdec') and ev.lhs is not None and expr_str(strip_casts(ev.lhs)) in prefixes:
+                            return True
+                        if ev.kind == 'declinit' and ev.lhs.get('d') in vars_:
+                            return True
+                        if ev.kind == 'addr' and ev.lhs is not None and expr_str(strip_casts(ev.lhs)) in prefixes:
+                            return True      # &x handed to somebody who may store into it
+                    return False
+                killers = {m.id for m in cfg.nodes if m.id not in relnodes and kills(m)}
+                # cheap filter: is a second release reachable at all?
+                cand = False
+                for rid in relnodes:
+                    reach = cfg.reachable(rid, stop=killers)
+                    if any(r2 in reach for r2 in relnodes if r2 != rid) or any(y == rid for x2 in reach for (y, _l) in cfg.succ[x2]) \
+                            or len(relnodes[rid]) > 1:
+                        cand = True
+                witness = None
+                if cand:
+                    witness = _dbl_search(cfg, fn, T, relnodes, killers, kills)
+                for (c, e, kind) in group:
+                    bad = witness is not None and witness[1] is c
+                    R.ob('DBL1', fn, c, 'no second release of %s without a store to it in between' % T, not bad,
+                         ('the block was already released at line %d on the path %s' % (witness[0], witness[2])) if bad else
+                         ('no feasible path reaches this release with %s already released' % T if cand else
+                          'no other release of %s is reachable without a store to it' % T),
+                         key='double:%s:%s' % (fn.name, T))
+    R.floor('DBL1', 'release sites examined', n, 40)
+    R.note('DBL1: %d release sites in %d functions' % (n, nfun))
+
+
+def _dbl_search(cfg, fn, T, relnodes, killers, kills):
+    """Path search with the truth of passed conditions; returns (line of the first release, second call, path) or None."""
+    def cond_key(e):
+        e = strip_casts(e)
+        neg = False
+        while e.get('k') == 'un' and e['op'] == '!':
+            e = strip_casts(e['e'])
+            neg = not neg
+        if e.get('k') == 'bin' and e['op'] in ('==', '!='):
+            for (a, b) in ((e['l'], e['r']), (e['r'], e['l'])):
+                if is_null_const(b) or const_val(b) == 0:
+                    return expr_str(strip_casts(a)), (e['op'] == '==') != neg    # (x == NULL) true <=> x false
+        return expr_str(e), neg
+
+    def vars_of(s, node):
+        return s
+
+    work = [(cfg.entry.id, frozenset(), None, ())]
+    seen = set()
+    steps = 0
+    while work:
+        nid, facts, armed, trail = work.pop()
+        key = (nid, facts, armed)
+        if key in seen:
+            continue
+        seen.add(key)
+        steps += 1
+        if steps > 200000:
+            raise AnalysisBroken('DBL1: path search in %s does not finish' % fn.name)
+        node = cfg.nodes[nid]
+        fd = dict(facts)
+        if nid in relnodes:
+            for (c, kind) in relnodes[nid]:
+                isnull = fd.get(T) is False
+                if armed is not None and armed[0] in ('yes', 'maybe') and not isnull:
+                    return (armed[1], c, ' -> '.join(str(l) for l in trail[-8:] + (node.line,)))
+                if kind == 'release':
+                    armed = ('yes', node.line, None)
+                else:
+                    # reallocate: gone when the result is non-NULL; remember where the result goes
+                    dest = None
+                    for ev in node_effects(node):
+                        if ev.kind == 'store' and ev.rhs is not None and any(x is c for x in walk(ev.rhs)):
+                            dest = expr_str(strip_casts(ev.lhs))
+                        if ev.kind == 'declinit' and ev.rhs is not None and any(x is c for x in walk(ev.rhs)):
+                            dest = ev.lhs.get('n')
+                    armed = ('maybe', node.line, dest)
+                    if dest is not None:
+                        fd.pop(dest, None)
+        elif nid in killers:
+            armed = None
+        # stores invalidate facts about what they change
+        changed = set()
+        for ev in node_effects(node):
+            if ev.kind in ('store', 'incdec') and ev.lhs is not None:
+                changed.add(expr_str(strip_casts(ev.lhs)))
+            if ev.kind == 'declinit':
+                changed.add(ev.lhs.get('n'))
+            if ev.kind == 'call':
+                changed.add('(')       # anything mentioning a call, and anything reached through pointers
+        if changed:
+            for k in list(fd):
+                if any(ch == k or (ch != '(' and _mentions(k, ch)) or (ch == '(' and ('(' in k or '->' in k or '[' in k or '*' in k)) for ch in changed):
+                    if nid in relnodes and k == T:
+                        continue
+                    del fd[k]
+        for (y, label) in cfg.succ[nid]:
+            f2 = dict(fd)
+            a2 = armed
+            if label is not None and label[0] in ('T', 'F') and node.kind == 'branch':
+                k, neg = cond_key(label[1])
+                val = (label[0] == 'T') != neg
+                if k in f2 and f2[k] != val:
+                    continue
+                f2[k] = val
+                if armed is not None and armed[0] == 'maybe' and armed[2] == k:
+                    a2 = ('yes', armed[1], None) if val else None
+            work.append((y, frozenset(f2.items()), a2, trail + ((node.line,) if node.kind == 'branch' or nid in relnodes else ())))
+    return None
+
+
+def _mentions(cond, name):
+    import re
+    return re.search(r'(?<![A-Za-z0-9_>.])' + re.escape(name) + r'(?![A-Za-z0-9_])', cond) is not None
